@@ -68,6 +68,13 @@ type c18Case struct {
 	T0        int64   `json:"t0"`
 	Exact     bool    `json:"exact"`
 	DefaultID bool    `json:"default_extractor"` // DefaultRateLimiterConfig.IdentifierExtractor (RealIP)
+	// CustomHandlers: 0 = default Deny/ErrorHandler; 1 = custom handlers that write their own
+	// 429 / 403 response and return nil; 2 = custom handlers that return an *echo.HTTPError
+	CustomHandlers int `json:"custom_handlers,omitempty"`
+	// Stress (frozen clock): StressG goroutines per identifier call Store.Allow at the same
+	// time for StressIDs fresh identifiers; oracle only (at most burst admissions each)
+	StressIDs int `json:"stress_ids,omitempty"`
+	StressG   int `json:"stress_g,omitempty"`
 	// Skew: all events are kind 4 (concurrent Store.Allow calls on a clock that is monotone in
 	// start order; some goroutines are held before AllowN, so the limiter sees their clock
 	// readings out of order: finding F19).  ExpiresIn is long enough that no sweep happens.
@@ -146,6 +153,22 @@ func c18Drive(c *c18Case, evs []c18Ev) (obs []c18Obs, panicked string) {
 		Store:   rec,
 		Skipper: func(ctx echo.Context) bool { return ctx.Request().Header.Get("X-Skip") != "" },
 	}
+	switch c.CustomHandlers {
+	case 1: // write the response, return nil
+		cfg.DenyHandler = func(ctx echo.Context, identifier string, err error) error {
+			return ctx.JSON(http.StatusTooManyRequests, map[string]string{"message": "slow down", "id": identifier})
+		}
+		cfg.ErrorHandler = func(ctx echo.Context, err error) error {
+			return ctx.JSON(http.StatusForbidden, map[string]string{"message": "who are you"})
+		}
+	case 2: // return an error of their own
+		cfg.DenyHandler = func(ctx echo.Context, identifier string, err error) error {
+			return echo.NewHTTPError(http.StatusTooManyRequests, "custom deny for "+identifier)
+		}
+		cfg.ErrorHandler = func(ctx echo.Context, err error) error {
+			return echo.NewHTTPError(http.StatusForbidden, "custom extractor error").SetInternal(err)
+		}
+	}
 	if !c.DefaultID {
 		cfg.IdentifierExtractor = func(ctx echo.Context) (string, error) {
 			if ctx.Request().Header.Get("X-Err") != "" {
@@ -194,6 +217,82 @@ func c18Drive(c *c18Case, evs []c18Ev) (obs []c18Obs, panicked string) {
 		obs = append(obs, o)
 	}
 	return obs, ""
+}
+
+// ---------- frozen-clock stress (concurrent first requests) ----------
+
+// c18RunStress: on a frozen clock nothing is refilled and no reading is older than another,
+// so whatever the interleaving each identifier may be admitted at most `burst` times
+// (C18_window with d = 0; C18_skew_bucket with no backward jumps) and, since a refusal needs a
+// used-up allowance, exactly min(burst, calls) times.  Sound on every schedule: oracle only.
+func c18RunStress(c *c18Case) Result {
+	if c.StressIDs <= 0 || c.StressG <= 0 || c.StressIDs > 64 || c.StressG > 256 || c.RateNum >= c.RateDen*c18Second {
+		return Result{Tags: []string{"invalid-case"}}
+	}
+	var oracle string
+	func() {
+		defer func() {
+			if r := recover(); r != nil {
+				oracle = fmt.Sprint("panic: ", r)
+			}
+		}()
+		st := middleware.NewRateLimiterMemoryStoreWithConfig(middleware.RateLimiterMemoryStoreConfig{
+			Rate:      rate.Limit(float64(c.RateNum) / float64(c.RateDen)),
+			Burst:     c.Burst,
+			ExpiresIn: time.Duration(c.ExpiresIn),
+		})
+		frozen := c18Base.Add(time.Duration(c.T0))
+		middleware.VerifSetClock(st, func() time.Time { return frozen })
+		counts := make([]int64, c.StressIDs)
+		var mu sync.Mutex
+		var wg sync.WaitGroup
+		start := make(chan struct{})
+		for i := 0; i < c.StressIDs; i++ {
+			id := fmt.Sprintf("stress-%d", i)
+			for g := 0; g < c.StressG; g++ {
+				wg.Add(1)
+				go func(i int) {
+					defer wg.Done()
+					<-start
+					if ok, _ := st.Allow(id); ok {
+						mu.Lock()
+						counts[i]++
+						mu.Unlock()
+					}
+				}(i)
+			}
+		}
+		close(start)
+		wg.Wait()
+		burst := c.effBurst()
+		want := burst
+		if int64(c.StressG) < want {
+			want = int64(c.StressG)
+		}
+		for i, k := range counts {
+			if k > burst {
+				oracle = fmt.Sprintf("window: identifier \"stress-%d\": %d of %d concurrent calls admitted at one instant (frozen clock) > burst %d", i, k, c.StressG, burst)
+				return
+			}
+			if k < want {
+				oracle = fmt.Sprintf("refusal: identifier \"stress-%d\": only %d of %d concurrent calls admitted at one instant although burst is %d", i, k, c.StressG, burst)
+				return
+			}
+		}
+	}()
+	return Result{Oracle: oracle, Tags: []string{"stress-frozen-clock"}, Nontrivial: true}
+}
+
+func c18GenStress(r *rand.Rand) *c18Case {
+	c := &c18Case{RateNum: int64(1 + r.Intn(100)), RateDen: int64(1 + r.Intn(4)), T0: int64(r.Intn(1000000000))}
+	c.Burst = 1 + r.Intn(3)
+	if r.Intn(2) == 0 {
+		c.Burst = 1
+	}
+	c.ExpiresIn = 0
+	c.StressIDs = 4 + r.Intn(12)
+	c.StressG = 8 + r.Intn(24)
+	return c
 }
 
 // ---------- skew cases (F19) ----------
@@ -650,6 +749,12 @@ func c18Oracles(c *c18Case, obs []c18Obs) (v c18Verdict, tags []string, nontrivi
 	if c.DefaultID {
 		tagset["default-extractor"] = true
 	}
+	switch c.CustomHandlers {
+	case 1:
+		tagset["custom-handlers-write-and-return-nil"] = true
+	case 2:
+		tagset["custom-handlers-return-error"] = true
+	}
 	if c.Exact {
 		tagset["exact-stream"] = true
 	} else {
@@ -666,6 +771,9 @@ func c18Run(ci any) Result {
 	c := ci.(*c18Case)
 	if c.RateDen <= 0 || c.RateNum < 0 || c.Burst < 0 || c.ExpiresIn < 0 {
 		return Result{Tags: []string{"invalid-case"}}
+	}
+	if c.StressIDs > 0 || c.StressG > 0 {
+		return c18RunStress(c)
 	}
 	if c.Skew {
 		return c18RunSkew(c)
@@ -705,6 +813,9 @@ func c18Known(ci any, res Result, modelObs string) string {
 	c := ci.(*c18Case)
 	if res.Ops != "" && res.Obs != modelObs {
 		return "" // the model does not reproduce it: something else is going on
+	}
+	if c.StressIDs > 0 || c.StressG > 0 {
+		return ""
 	}
 	if c.Skew {
 		// F19: out-of-order AllowN readings; the window bound on the readings fails even with
@@ -1057,6 +1168,9 @@ func c18GenExact(r *rand.Rand, big bool) *c18Case {
 	}
 	c.T0 = int64(r.Intn(1000)) * c18Tick
 	c.DefaultID = r.Intn(8) == 0
+	if r.Intn(3) == 0 {
+		c.CustomHandlers = 1 + r.Intn(2)
+	}
 	n := 4 + r.Intn(40)
 	if big {
 		n = 20 + r.Intn(200)
@@ -1119,6 +1233,9 @@ func c18GenArbitrary(r *rand.Rand, big bool) *c18Case {
 	}
 	c.T0 = int64(r.Intn(1000000000))
 	c.DefaultID = r.Intn(8) == 0
+	if r.Intn(3) == 0 {
+		c.CustomHandlers = 1 + r.Intn(2)
+	}
 	n := 4 + r.Intn(40)
 	if big {
 		n = 20 + r.Intn(150)
@@ -1191,12 +1308,23 @@ func c18Gen(r *rand.Rand, tier string) []any {
 	for i := 0; i < n/12; i++ {
 		out = append(out, c18GenSkew(r, big && i%3 == 0))
 	}
+	for i := 0; i < n/20; i++ {
+		out = append(out, c18GenStress(r))
+	}
 	return out
 }
 
 func c18Shrink(ci any) []any {
 	c := ci.(*c18Case)
 	var out []any
+	if c.StressIDs > 0 {
+		return nil // schedule dependent: keep the case as generated
+	}
+	if c.CustomHandlers != 0 {
+		d := *c
+		d.CustomHandlers = 0
+		out = append(out, &d)
+	}
 	with := func(evs []c18Ev) *c18Case {
 		d := *c
 		d.Evs = evs
@@ -1245,7 +1373,7 @@ func c18Shrink(ci any) []any {
 func init() {
 	register(&Prop{
 		ID:             "C18",
-		Rule:           "3/5 exact stream (rate k/2^j, instants multiples of 2^-9 s: float64 arithmetic of x/time/rate is exact, decisions compared with the Lean model), 2/5 arbitrary stream (rate p/q, ns instants, incl. the F11 arrival pattern floor(i/rate): oracles only), plus high-rate exact cases where the 1 ns truncation slack shows, plus a skew stream (concurrent Store.Allow goroutines on a clock monotone in start order, some held by channels between their clock reading and AllowN while 1-3 later calls complete: out-of-order readings at the limiter, finding F19; compared with the model in AllowN order and checked against the allowance of C18_skew_bucket); 1-4 identifiers, bursts at one instant, arrivals at/next to the refill interval, idle gaps at ExpiresIn-1,+0,+1 unit and beyond (cleanup), returns after being forgotten; ExpiresIn tight (=burst/rate), wider, default, or (exact stream only, tie only) violating ExpiresIn*rate>=burst; requests direct to Store.Allow or through RateLimiterWithConfig (extractor error, skipper, default RealIP extractor); non-trivial = some identifier is admitted again after a refusal, or returns after a gap longer than ExpiresIn; distinct = distinct model op lines / cases",
+		Rule:           "3/5 exact stream (rate k/2^j, instants multiples of 2^-9 s: float64 arithmetic of x/time/rate is exact, decisions compared with the Lean model), 2/5 arbitrary stream (rate p/q, ns instants, incl. the F11 arrival pattern floor(i/rate): oracles only), plus high-rate exact cases where the 1 ns truncation slack shows, plus a skew stream (concurrent Store.Allow goroutines on a clock monotone in start order, some held by channels between their clock reading and AllowN while 1-3 later calls complete: out-of-order readings at the limiter, finding F19; compared with the model in AllowN order and checked against the allowance of C18_skew_bucket), plus a frozen-clock stress stream (4-15 fresh identifiers x 8-31 goroutines released together: at most / exactly burst admissions per identifier on any schedule; oracle only); a third of the middleware cases use custom Deny/ErrorHandlers (writing 429/403 and returning nil, or returning their own HTTPError); 1-4 identifiers, bursts at one instant, arrivals at/next to the refill interval, idle gaps at ExpiresIn-1,+0,+1 unit and beyond (cleanup), returns after being forgotten; ExpiresIn tight (=burst/rate), wider, default, or (exact stream only, tie only) violating ExpiresIn*rate>=burst; requests direct to Store.Allow or through RateLimiterWithConfig (extractor error, skipper, default RealIP extractor); non-trivial = some identifier is admitted again after a refusal, or returns after a gap longer than ExpiresIn; distinct = distinct model op lines / cases",
 		New:            func() any { return &c18Case{} },
 		Gen:            c18Gen,
 		Run:            c18Run,
